@@ -28,7 +28,7 @@ for d in sorted(glob.glob('seeded/C*_m*')):
             elif out.returncode not in (0, 1):
                 verdict = f'error rc={out.returncode}'
     finally:
-        subprocess.run(['git', '-C', '/repo', 'checkout', '--', '.'])
+        subprocess.run(['git', '-C', '/repo', 'checkout', '--', '.']); subprocess.run(['git', '-C', '/repo', 'clean', '-fdq', '--', 'packages'])
     meta['detected_by'] = det
     json.dump(meta, open(f'{d}/meta.json', 'w'), indent=1)
     blind = meta.get('blind', {}).get('verdict', 'n/a (round 1)')
